@@ -1,11 +1,14 @@
 import Adlt.Plugins.Anon
+import Adlt.Plugins.AnonStream
 import Adlt.Plugins.Stage
 /-! # C19 — plugins keep the stream intact; anonymisation keeps its structure   (partial)
 
 Decoding plugins (non-verbose, SOME/IP, CAN, Muniic, rewrite) are opaque decoders; what is checked of them on every run
 is the executable statement in `Plg.doLine` (same count, same order, index / reception time / ECU / payload bytes /
 lifecycle untouched, timestamp only by rewrite, an existing extended header untouched) on the real plugins configured
-from the repository's FIBEX / JSON files. The theorems below are about the pseudonym tables of the anonymiser. -/
+from the repository's FIBEX / JSON files. The theorems below are about the pseudonym tables of the anonymiser - one table
+(`C19_anon_table_injective`, `C19_anon_format_injective`) and the whole stream (`C19_anon_stream_*`: over any stream, the
+numbers handed out by the model of `AnonymizePlugin::process_msg` are a function of the ids and injective per table). -/
 namespace Props
 open Anon
 
@@ -37,6 +40,29 @@ theorem C19_decoders_conservative (ps : List Plg.Plugin) (hc : ∀ p ∈ ps, Plg
 /-- if additionally every plugin keeps the timestamp (all decoders but rewrite), one message through the plugins keeps it -/
 theorem C19_decoders_keep_timestamp (ps : List Plg.Inst) (hc : ∀ i ∈ ps, Plg.Conservative i.1) (ht : ∀ i ∈ ps, Plg.KeepsTs i.1)
     (m : Plg.PMsg) : (Plg.through ps m).2.1.ts = m.ts := Plg.through_ts ps hc ht m
+
+/-- **over a whole stream**, ECU ids: two messages get the same ECU number iff they carry the same ECU id -/
+theorem C19_anon_stream_ecu (ms : List Anon.In) (p q : Anon.In × Anon.Out) (hp : p ∈ ms.zip (run {} ms)) (hq : q ∈ ms.zip (run {} ms)) :
+    p.2.1 = q.2.1 ↔ p.1.1 = q.1.1 := stream_ecu ms p q hp hq
+
+/-- **over a whole stream**, APIDs of one ECU: the same APID number iff the same APID; and a message gets APID / CTID numbers
+    iff it has an extended header -/
+theorem C19_anon_stream_apid (ms : List Anon.In) (p q : Anon.In × Anon.Out) (hp : p ∈ ms.zip (run {} ms)) (hq : q ∈ ms.zip (run {} ms))
+    (hecu : p.2.1 = q.2.1) (a1 c1 a2 c2 : Id) (an1 cn1 an2 cn2 : Nat)
+    (hp1 : p.1.2 = some (a1, c1)) (hp2 : p.2.2 = some (an1, cn1)) (hq1 : q.1.2 = some (a2, c2)) (hq2 : q.2.2 = some (an2, cn2)) :
+    (an1 = an2 ↔ a1 = a2) ∧ p.2.2.isSome = p.1.2.isSome :=
+  ⟨stream_apid ms p q hp hq hecu a1 c1 a2 c2 an1 cn1 an2 cn2 hp1 hp2 hq1 hq2, stream_shape ms p hp⟩
+
+/-- **over a whole stream**, CTIDs of one (ECU, APID): the same CTID number iff the same CTID -/
+theorem C19_anon_stream_ctid (ms : List Anon.In) (p q : Anon.In × Anon.Out) (hp : p ∈ ms.zip (run {} ms)) (hq : q ∈ ms.zip (run {} ms))
+    (hecu : p.2.1 = q.2.1) (a c1 c2 : Id) (an1 cn1 an2 cn2 : Nat)
+    (hp1 : p.1.2 = some (a, c1)) (hp2 : p.2.2 = some (an1, cn1)) (hq1 : q.1.2 = some (a, c2)) (hq2 : q.2.2 = some (an2, cn2)) :
+    cn1 = cn2 ↔ c1 = c2 := stream_ctid ms p q hp hq hecu a c1 c2 an1 cn1 an2 cn2 hp1 hp2 hq1 hq2
+
+/-- the numbers stay within the size of the final table: as long as a table holds at most 999 ids, every number is one that
+    `C19_anon_format_injective` renders as a distinct pseudonym text -/
+theorem C19_anon_stream_bound (ms : List Anon.In) (p : Anon.In × Anon.Out) (hp : p ∈ ms.zip (run {} ms)) :
+    1 ≤ p.2.1 ∧ p.2.1 ≤ (final {} ms).ecus.length := stream_ecu_bound ms p hp
 
 /-- non-vacuity: a plugin that vetoes every second message it is handed is *not* conservative, and the stage then drops -/
 example : (Plg.pluginsProcess [{ proc := fun h m => (m, h.length % 2 == 0) }]
